@@ -3,6 +3,9 @@
 //
 //   part <cmp> <rank> <run> <run> ...     runs as csv, cmp in {lt, gt, half}
 //   sel  <cmp> <rank> <run> <run> ...
+//   load <cmp> <run> <run> ...          keeps the runs as caller-owned storage for the rest of the case
+//   p <ranktype> <rank> | s <ranktype> <rank>   partition / selection on the loaded runs, instantiated with the
+//        rank type long|int|llong|size_t|uint|ushort; the same storage is used call after call
 // answers
 //   offs <a0,a1,..> cert <0|1> tr <seq:idx,seq:idx,...>
 //   val <v> off <o> tr <...>
@@ -17,6 +20,8 @@
 // before every right edge of another sequence in (value, sequence) order).
 // For selection: value equivalent to the rank-th element of the merged order,
 // offset = rank - #(elements strictly smaller).
+// After every call the caller's runs must be unmodified (the element type is move-sensitive: a move marks
+// its source), so `return std::move(*minright)` and friends are reported at the call that does it.
 //
 //   exh <cmp> <mmax> <lmax> <nvals> <shard> <nshards>
 // enumerates every tuple of m<=mmax sorted runs of length 1..lmax over nvals
@@ -43,6 +48,12 @@ using ll = long long;
 // on (e.g. std::lower_bound(first, last, v)) still compiles and yields a wrong result that the oracle reports.
 struct Val {
     ll v = 0;
+    bool moved = false;          // set in the SOURCE of a move: the algorithm must never move from the caller's runs
+    Val() {}
+    Val(const Val& o) : v(o.v), moved(o.moved) {}
+    Val(Val&& o) noexcept : v(o.v), moved(o.moved) { o.v = -987654321; o.moved = true; }
+    Val& operator=(const Val& o) { v = o.v; moved = o.moved; return *this; }
+    Val& operator=(Val&& o) noexcept { v = o.v; moved = o.moved; if (this != &o) { o.v = -987654321; o.moved = true; } return *this; }
     static unsigned poison(ll x) { return static_cast<unsigned>(x + 17) * 2654435761u; }
     friend bool operator<(const Val& a, const Val& b) { return poison(a.v) < poison(b.v); }
     friend bool operator>(const Val& a, const Val& b) { return poison(a.v) > poison(b.v); }
@@ -213,9 +224,22 @@ static std::vector<std::vector<Val>> to_vals(const Runs& runs) {
     return st;
 }
 
-static Res run_part(Runs& runs, Comp comp, long rank) {
-    size_t m = runs.size();
-    std::vector<std::vector<Val>> st = to_vals(runs);
+using Store = std::vector<std::vector<Val>>;
+
+// the caller-owned runs must be exactly what they were: same values, nothing moved from
+static void check_inputs(const Runs& runs, const Store& st, std::vector<std::string>& bad) {
+    for (size_t i = 0; i < runs.size(); ++i)
+        for (size_t p = 0; p < runs[i].size(); ++p)
+            if (st[i][p].moved || st[i][p].v != runs[i][p]) {
+                bad.push_back("input sequence " + std::to_string(i) + " modified at position " + std::to_string(p) +
+                              (st[i][p].moved ? " (element was moved from)" : ""));
+                return;
+            }
+}
+
+template <typename RT>
+static Res run_part_t(Store& st, Comp comp, long rank) {
+    size_t m = st.size();
     std::vector<std::pair<CkIt, CkIt>> seqs(m);
     for (size_t i = 0; i < m; ++i) {
         long len = (long)st[i].size();
@@ -223,15 +247,16 @@ static Res run_part(Runs& runs, Comp comp, long rank) {
     }
     std::vector<CkIt> offs(m);
     g_log.clear();
-    tlx::multisequence_partition(seqs.begin(), seqs.end(), rank, offs.begin(), comp);
+    const RT r_rank = static_cast<RT>(rank);
+    tlx::multisequence_partition(seqs.begin(), seqs.end(), r_rank, offs.begin(), comp);
     Res r;
     for (size_t i = 0; i < m; ++i) r.off.push_back(offs[i] - seqs[i].first);
     return r;
 }
 
-static Res run_sel(Runs& runs, Comp comp, long rank) {
-    size_t m = runs.size();
-    std::vector<std::vector<Val>> st = to_vals(runs);
+template <typename RT>
+static Res run_sel_t(Store& st, Comp comp, long rank) {
+    size_t m = st.size();
     std::vector<std::pair<CkIt, CkIt>> seqs(m);
     for (size_t i = 0; i < m; ++i) {
         long len = (long)st[i].size();
@@ -240,10 +265,50 @@ static Res run_sel(Runs& runs, Comp comp, long rank) {
     g_log.clear();
     Res r;
     try {
-        r.val = tlx::multisequence_selection<Val>(seqs.begin(), seqs.end(), rank, r.offset, comp).v;
+        const RT r_rank = static_cast<RT>(rank);
+        RT off = 0;
+        r.val = tlx::multisequence_selection<Val>(seqs.begin(), seqs.end(), r_rank, off, comp).v;
+        r.offset = static_cast<long>(off);
     } catch (const std::exception&) {
         r.threw = true;
     }
+    return r;
+}
+
+// every rank type the API accepts
+static const char* RANK_TYPES[] = {"long", "int", "llong", "size_t", "uint", "ushort"};
+static bool known_rt(const std::string& rt) {
+    for (auto* n : RANK_TYPES) if (rt == n) return true;
+    return false;
+}
+static Res run_part_rt(const std::string& rt, Store& st, Comp comp, long rank) {
+    if (rt == "int") return run_part_t<int>(st, comp, rank);
+    if (rt == "llong") return run_part_t<long long>(st, comp, rank);
+    if (rt == "size_t") return run_part_t<size_t>(st, comp, rank);
+    if (rt == "uint") return run_part_t<unsigned int>(st, comp, rank);
+    if (rt == "ushort") return run_part_t<unsigned short>(st, comp, rank);
+    return run_part_t<long>(st, comp, rank);
+}
+static Res run_sel_rt(const std::string& rt, Store& st, Comp comp, long rank) {
+    if (rt == "int") return run_sel_t<int>(st, comp, rank);
+    if (rt == "llong") return run_sel_t<long long>(st, comp, rank);
+    if (rt == "size_t") return run_sel_t<size_t>(st, comp, rank);
+    if (rt == "uint") return run_sel_t<unsigned int>(st, comp, rank);
+    if (rt == "ushort") return run_sel_t<unsigned short>(st, comp, rank);
+    return run_sel_t<long>(st, comp, rank);
+}
+
+static Res run_part(Runs& runs, Comp comp, long rank, std::vector<std::string>* bad = nullptr) {
+    Store st = to_vals(runs);
+    Res r = run_part_t<long>(st, comp, rank);
+    if (bad) check_inputs(runs, st, *bad);
+    return r;
+}
+
+static Res run_sel(Runs& runs, Comp comp, long rank, std::vector<std::string>* bad = nullptr) {
+    Store st = to_vals(runs);
+    Res r = run_sel_t<long>(st, comp, rank);
+    if (bad) check_inputs(runs, st, *bad);
     return r;
 }
 
@@ -265,7 +330,60 @@ static bool parse_op(const std::vector<std::string>& t, Cmp& c, long& rank, Runs
     return true;
 }
 
+// persistent runs of a case: `load <cmp> <run>...`, then `p <ranktype> <rank>` / `s <ranktype> <rank>` operate on the
+// SAME caller-owned storage call after call (a call that modifies its input corrupts the following ones)
+static bool g_loaded = false;
+static Cmp g_cmp = LT;
+static Runs g_runs;
+static Store g_store;
+
+static void do_loaded(const std::vector<std::string>& t) {
+    if (t[0] == "load") {
+        Cmp c; Runs runs;
+        if (t.size() < 3 || !parse_cmp(t[1], c)) { vh::answer("bad-op"); return; }
+        try { for (size_t i = 2; i < t.size(); ++i) runs.push_back(vh::csv(t[i])); } catch (...) { vh::answer("bad-op"); return; }
+        if (!precond(runs, Comp{c})) { vh::answer("bad-op"); return; }
+        g_cmp = c; g_runs = runs; g_store = to_vals(runs); g_loaded = true;
+        vh::answer("loaded " + std::to_string(runs.size()));
+        return;
+    }
+    if (!g_loaded || t.size() != 3 || !known_rt(t[1])) { vh::answer("bad-op"); return; }
+    long rank;
+    try { rank = std::stol(t[2]); } catch (...) { vh::answer("bad-op"); return; }
+    Comp comp{g_cmp};
+    long N = 0;
+    for (auto& r : g_runs) N += (long)r.size();
+    if (t[1] == "ushort" && N > 60000) { vh::answer("bad-op"); return; }
+    std::vector<std::string> bad;
+    std::string ctx = std::string(t[0]) + " " + t[1] + " " + t[2] + " after load " + cmp_name(g_cmp);
+    for (auto& r : g_runs) ctx += " " + vh::show_csv(r);
+    if (t[0] == "p") {
+        if (rank < 0 || rank > N) { vh::answer("bad-op"); return; }
+        Res r = run_part_rt(t[1], g_store, comp, rank);
+        std::string tr = show_trace();
+        for (auto& e : g_log.errors) bad.push_back(e);
+        std::vector<std::string> pbad;
+        check_partition(g_runs, comp, rank, r.off, pbad);
+        vh::answer("offs " + vh::show_csv(r.off) + " cert " + (pbad.empty() ? "1" : "0") + " tr " + tr);
+        for (auto& e : pbad) bad.push_back(e);
+    }
+    else {
+        if (rank < 0 || rank >= N) { vh::answer("bad-op"); return; }
+        Res r = run_sel_rt(t[1], g_store, comp, rank);
+        if (r.threw) { vh::answer("threw tr " + show_trace()); bad.push_back("selection threw for a rank inside the data"); }
+        else {
+            vh::answer("val " + std::to_string(r.val) + " off " + std::to_string(r.offset) + " tr " + show_trace());
+            for (auto& e : g_log.errors) bad.push_back(e);
+            check_selection(g_runs, comp, rank, r.val, r.offset, bad);
+        }
+    }
+    check_inputs(g_runs, g_store, bad);
+    for (auto& b : bad) vh::viol(b + " in " + ctx);
+    // keep going on the caller's (possibly corrupted) storage, as a real caller would; restore only the reference
+}
+
 static void do_line(const std::vector<std::string>& t) {
+    if (t[0] == "load" || t[0] == "p" || t[0] == "s") { do_loaded(t); return; }
     Cmp c; long rank; Runs runs;
     if (!parse_op(t, c, rank, runs)) { vh::answer("bad-op"); return; }
     Comp comp{c};
@@ -275,7 +393,7 @@ static void do_line(const std::vector<std::string>& t) {
     std::vector<std::string> bad;
     if (t[0] == "part") {
         if (rank < 0 || rank > N) { vh::answer("bad-op"); return; }
-        Res r = run_part(runs, comp, rank);
+        Res r = run_part(runs, comp, rank, &bad);
         std::string tr = show_trace();
         for (auto& e : g_log.errors) bad.push_back(e);
         std::vector<std::string> pbad;
@@ -286,7 +404,7 @@ static void do_line(const std::vector<std::string>& t) {
     }
     else if (t[0] == "sel") {
         if (rank < 0 || rank >= N) { vh::answer("bad-op"); return; }
-        Res r = run_sel(runs, comp, rank);
+        Res r = run_sel(runs, comp, rank, &bad);
         if (r.threw) { vh::answer("threw tr " + show_trace()); bad.push_back("selection threw for a rank inside the data"); }
         else {
             vh::answer("val " + std::to_string(r.val) + " off " + std::to_string(r.offset) + " tr " + show_trace());
@@ -333,7 +451,7 @@ static int do_exh(const std::vector<std::string>& a) {
                 for (int i = 0; i < m; ++i) { runs[i] = pool[idx[i]]; N += (long)runs[i].size(); }
                 for (long rank = 0; rank <= N; ++rank) {
                     std::vector<std::string> bad;
-                    Res r = run_part(runs, comp, rank);
+                    Res r = run_part(runs, comp, rank, &bad);
                     for (auto& e : g_log.errors) bad.push_back(e);
                     check_partition(runs, comp, rank, r.off, bad);
                     ++cases;
@@ -343,7 +461,7 @@ static int do_exh(const std::vector<std::string>& a) {
                     }
                     if (rank < N) {
                         bad.clear();
-                        Res s = run_sel(runs, comp, rank);
+                        Res s = run_sel(runs, comp, rank, &bad);
                         for (auto& e : g_log.errors) bad.push_back(e);
                         if (s.threw) bad.push_back("selection threw");
                         else check_selection(runs, comp, rank, s.val, s.offset, bad);
@@ -372,7 +490,7 @@ int main(int argc, char** argv) {
         auto t = vh::tokens(line);
         if (t.empty()) { vh::answer(""); continue; }
         if (t[0][0] == '#') { vh::answer(line); continue; }
-        if (t[0] == "case") { vh::answer("case"); continue; }
+        if (t[0] == "case") { g_loaded = false; vh::answer("case"); continue; }
         do_line(t);
     }
     return 0;
